@@ -50,7 +50,7 @@ def run(ctx):
         "a lock held during delivery shows as a runtime deadlock abort of that line",
         "Go's inner maps are references; the model holds them as values: justified by C17.heap_model_refines_value_model "
         "(heap-cell model with the code's copying merge refines the value model along every history) for productionMap; "
-        "nameMap's inner sets are values without such a proof (they do not decide deliveries)",
+        "nameMap likewise (C17.heap_model_refines_value_model_names)",
         "errs.Recovery calls the handler exactly once per panic (C13 territory); the harness counts the handler calls",
         "batchLevel does not overflow int",
     ]
